@@ -24,6 +24,7 @@ func init() {
 		Rule{ID: "R07d", Doc: "memory backend: key re-check, copy, entry lock discipline", Floor: 8, Run: r07d},
 		Rule{ID: "R07e", Doc: "netlist.List built only by Build; Lookup index guarded", Floor: 3, Run: r07e},
 		Rule{ID: "R20b", Doc: "the question used for the key is not recycled under the refresh goroutine (shared with C20)", Floor: 20, Run: r20b},
+		Rule{ID: "R07f", Doc: "the client-group lookup is a correct predecessor search", Floor: 4, AllVariants: true, Run: r07f},
 	)
 }
 
@@ -859,4 +860,96 @@ func r07e(c *core.Ctx) {
 			})
 		}
 	}
+}
+
+// R07f: the client-group lookup finds the range that contains the address. netlist.List.Lookup is a predecessor
+// search over ranges sorted by start: sort.Search must return the first index whose start is strictly greater than
+// the address (predicate `ip < start`), the candidate is the element before it, and index 0 means "none". A
+// non-strict predicate skips the range whose first address is the client's.
+func r07f(c *core.Ctx) {
+	var lookup *ssa.Function
+	for _, f := range c.SrcFuncs() {
+		if core.BaseName(f) == "Lookup" && strings.Contains(core.FuncName(f), "netlist.List") && f.Parent() == nil {
+			lookup = f
+		}
+	}
+	if lookup == nil {
+		c.Unknown("netlist-lookup", 0, nil, "netlist.List.Lookup exists", "not found")
+		return
+	}
+	var search *ssa.Call
+	for _, call := range core.CallsNamed(lookup, "sort.Search") {
+		search, _ = call.(*ssa.Call)
+	}
+	if search == nil {
+		c.Bad("predecessor-search", lookup.Pos(), lookup, "Lookup is a sort.Search predecessor search", "no sort.Search")
+		return
+	}
+	var pred *ssa.Function
+	if mc, ok := search.Call.Args[1].(*ssa.MakeClosure); ok {
+		pred = mc.Fn.(*ssa.Function)
+	}
+	okPred, desc := false, ""
+	if pred != nil {
+		for _, ret := range returnsOf(pred) {
+			desc = core.Expr(ret.Results[0])
+			cm, isCmp := core.CmpOf(ret.Results[0])
+			if !isCmp || cm.Op != "<" || cm.Neg {
+				okPred = false
+				break
+			}
+			// `A.cmp(B) < 0` means A < B; `0 < A.cmp(B)` means B < A. Wanted: ip < start of element i.
+			var a, b string
+			if call, isCall := cm.XV.(*ssa.Call); isCall && strings.HasSuffix(core.CallName(call), ".cmp") && cm.Y == "0" {
+				a, b = core.Expr(call.Call.Args[0]), core.Expr(call.Call.Args[1])
+			} else if call, isCall := cm.YV.(*ssa.Call); isCall && strings.HasSuffix(core.CallName(call), ".cmp") && cm.X == "0" {
+				b, a = core.Expr(call.Call.Args[0]), core.Expr(call.Call.Args[1])
+			} else {
+				okPred = false
+				break
+			}
+			okPred = strings.HasSuffix(b, "].start") && !strings.Contains(a, "].start") && !strings.Contains(a, "].end")
+		}
+	}
+	c.Check(okPred, "predecessor-search:predicate", search.Pos(), lookup, "the search predicate is the strict `ip < start of element i` (so the result is the first range starting after the address)", desc)
+	// the candidate is e[i-1], and i == 0 returns "not found"
+	okCand, okZero := false, false
+	core.EachInstr(lookup, func(b *ssa.BasicBlock, _ int, in ssa.Instruction) {
+		if ia, ok := in.(*ssa.IndexAddr); ok {
+			if bo, ok := ia.Index.(*ssa.BinOp); ok && bo.Op == token.SUB && bo.X == ssa.Value(search) {
+				if k, isC := core.ConstInt(bo.Y); isC && k == 1 {
+					okCand = true
+					if hasCond(b, "sort.Search(", false) {
+						okZero = true
+					}
+				}
+			}
+		}
+	})
+	c.Check(okCand, "predecessor-search:candidate", lookup.Pos(), lookup, "the candidate range is the element before the search result", "")
+	c.Check(okZero, "predecessor-search:none", lookup.Pos(), lookup, "a search result of 0 means no range starts at or before the address", condListOfFirstIndex(lookup))
+	// the list is sorted by start when it is built
+	okSort := false
+	for _, f := range c.SrcFuncs() {
+		if core.BaseName(f) == "Build" && strings.Contains(core.FuncName(f), "netlist.ListBuilder") {
+			for _, an := range f.AnonFuncs {
+				for _, ret := range returnsOf(an) {
+					if cm, ok := core.CmpOf(ret.Results[0]); ok && cm.Op == "<" && !cm.Neg && strings.Contains(cm.X, ".start.cmp(") && strings.Contains(cm.X, ".start)") && cm.Y == "0" {
+						okSort = true
+					}
+				}
+			}
+		}
+	}
+	c.Check(okSort, "predecessor-search:sorted-by-start", lookup.Pos(), lookup, "the list is built sorted by range start (strictly ascending comparator)", "")
+}
+
+func condListOfFirstIndex(fn *ssa.Function) string {
+	var out []string
+	for _, b := range fn.Blocks {
+		if s := condList(b); s != "" {
+			out = append(out, s)
+		}
+	}
+	return strings.Join(dedup(out), " | ")
 }
